@@ -18,7 +18,7 @@ pub const FLOORS: &[&str] = &[
     "inspect", "addr:0", "addr:orig-1", "addr:orig", "addr:x7FFF", "addr:x8000", "addr:xFDFF",
     "addr:xFE00", "addr:xFFFF", "origin_high", "origin_low", "predefined_breakpoint_outside_user_space",
     "origin_zero", "origin_above_user_space", "wrong_case_label_rejected", "integer_beyond_32_bits_rejected",
-    "bare_number_like_label_is_a_number", "pc_outside_user_space", "integer_of_17_bits_rejected",
+    "bare_number_like_label_is_a_number", "pc_outside_user_space", "integer_of_17_bits_rejected", "label_far_into_a_big_program",
 ];
 
 const CMDS_PER_SESSION: u64 = 120;
@@ -35,7 +35,7 @@ pub fn run(cfg: &Cfg, col: &mut Collector) {
     }
 }
 
-fn program(rng: &mut Rng, orig: u16, jump_out: Option<u16>) -> (String, RefImage) {
+fn program(rng: &mut Rng, orig: u16, jump_out: Option<u16>, big_gap: Option<i32>) -> (String, RefImage) {
     if orig == 0xFDF0 {
         // image fills 0xFDF0..=0xFDFF exactly; the trailing `.break` marks 0xFE00, the first
         // address outside user space
@@ -85,6 +85,10 @@ fn program(rng: &mut Rng, orig: u16, jump_out: Option<u16>) -> (String, RefImage
             2 => Stmt::Not(rng.below(8) as u8, rng.below(8) as u8),
             _ => Stmt::AndR(1, 2, 3),
         };
+        if let (Some(gap), true) = (big_gap, k == n / 2) {
+            // the labels behind this lie more than x8000 words into the program
+            items.push(Item::Stmt { label: None, stmt: Stmt::Blkw(gap) });
+        }
         items.push(Item::Stmt { label: label.map(|s| s.to_string()), stmt });
     }
     if let Some(t) = jump_out {
@@ -128,6 +132,10 @@ fn one_case(seed: u64, i: u64, n_sessions: u64, sweep_all: bool) -> CaseOut {
         4 => 0xFD00 + rng.below(0xE0) as u16,
         _ => gen_origin(&mut rng).clamp(1, 0xFD00) as u16,
     };
+    // every eleventh session has a program of more than x8000 words at a low origin: a label far into it plus
+    // an offset can pass x10000, which is no address (not the address it would wrap to)
+    let big = i % 11 == 7 && i % 5 != 2;
+    let orig: u16 = if big { *rng.pick(&[0x0000u16, 0x0100, 0x0040, 0x1000]) } else { orig };
     // every fifth session lets the program leave user space first (see below): from an ordinary origin
     let want_out = i % 5 == 2;
     let orig: u16 = if want_out { *rng.pick(&[0x3000u16, 0x0100, 0x8000, 0xC123, 0x7FF8, 0xFC00]) } else { orig };
@@ -148,7 +156,11 @@ fn one_case(seed: u64, i: u64, n_sessions: u64, sweep_all: bool) -> CaseOut {
     } else {
         None
     };
-    let (text, img) = program(&mut rng, orig, jump_out);
+    let gap = if big { Some(0xC000 + rng.below(0x1000) as i32) } else { None };
+    let (text, img) = program(&mut rng, orig, jump_out, gap);
+    if big {
+        out.class("label_far_into_a_big_program");
+    }
     let labels: Vec<(String, u16)> = img.labels.iter().map(|(n, idx)| (n.clone(), orig + *idx as u16)).collect();
 
     let mut cmds: Vec<Cmd> = Vec::new();
